@@ -29,7 +29,7 @@ func RunTwin(c *core.Ctx) {
 	d := &seqRun{S: NewS(c, h), cfg: cfg, r: r}
 
 	// schema: filter field F and sort field G get profiles whose values collide often
-	hitProfiles := []gen.Profile{{Kind: gen.PSmallInt}, {Kind: gen.PMixedNum}, {Kind: gen.PMixedNum, Nil: 15, Absent: 15}, {Kind: gen.PString, Absent: 10}, {Kind: gen.PMixed, Nil: 10}, {Kind: gen.PTime, Nil: 10}, {Kind: gen.PSmallInt, Absent: 25}, {Kind: gen.PEdge, Nil: 5}}
+	hitProfiles := []gen.Profile{{Kind: gen.PSmallInt}, {Kind: gen.PMixedNum}, {Kind: gen.PMixedNum, Nil: 15, Absent: 15}, {Kind: gen.PString, Absent: 10}, {Kind: gen.PMixed, Nil: 10}, {Kind: gen.PTime, Nil: 10}, {Kind: gen.PSmallInt, Absent: 25}, {Kind: gen.PEdge, Nil: 5}, {Kind: gen.PLongStr, Nil: 5}}
 	cand := []string{"a", "b", "x", "xy", "n.a", "n.b", "s", "t"}
 	F := gen.Pick(r, cand)
 	G := gen.Pick(r, cand)
